@@ -3,7 +3,9 @@
 (* Trace specification for C06 (arguments of a subprocess call) and C07    *)
 (* (captured macro texts): the recorded projection of the real tree must   *)
 (* equal what the model (Subproc!Args / Macro!Expected) prescribes.        *)
-(* A trace is [id, ok, func, wfunc, got, want]: got / want = sequences of  *)
+(* A trace is [id, ok, func, wfunc, after, got, want]: after = "ok" iff the *)
+(* code following the construct parsed as it does on its own;              *)
+(* got / want = sequences of                                               *)
 (* arguments, an argument = a sequence of descriptor strings.  One step    *)
 (* per argument; the first differing argument is reported.                 *)
 (***************************************************************************)
@@ -15,6 +17,7 @@ Max(x, y) == IF x > y THEN x ELSE y
 Clause(i) ==
   IF ~T.ok THEN "rejected_by_implementation"
   ELSE IF T.func # T.wfunc THEN "wrong_runtime_function"
+  ELSE IF T.after # "ok" THEN "following_code_affected"
   ELSE IF i > Len(T.got) THEN "argument_missing"
   ELSE IF i > Len(T.want) THEN "argument_extra"
   ELSE IF Len(T.got[i]) # Len(T.want[i]) THEN "argument_split_or_merged"
@@ -24,7 +27,7 @@ TInit == tid \in 1..Len(Traces) /\ k = 1 /\ verdict = "run"
 Last == Max(1, Max(Len(T.got), Len(T.want)))
 Step == /\ verdict = "run" /\ k <= Last
         /\ LET c == Clause(k) IN
-             /\ verdict' = IF c = "ok" \/ (k > Max(Len(T.got), Len(T.want)) /\ T.ok /\ T.func = T.wfunc) THEN "run" ELSE c
+             /\ verdict' = IF c = "ok" \/ (k > Max(Len(T.got), Len(T.want)) /\ T.ok /\ T.func = T.wfunc /\ T.after = "ok") THEN "run" ELSE c
              /\ k' = IF verdict' = "run" THEN k + 1 ELSE k
         /\ tid' = tid
 Finish == verdict = "run" /\ k > Last /\ verdict' = "ok" /\ UNCHANGED <<tid, k>>
